@@ -67,6 +67,12 @@ def deep(n: int) -> Any:
 
 
 JUNK.append(deep(50))
+JUNK.append({"__pow10__": 5000})  # decoded to 10**5000 in check(): beyond the int <-> str conversion limit
+JUNK.append({"__pow10__": -4400})
+JUNK.append("1" + "0" * 17)  # a digit string that is a far too large timestamp
+JUNK.append("-" + "9" * 25)
+JUNK.append(2 ** 63 - 1)
+JUNK.append({"k": [1, 2], "first": [], "size": -1})
 JUNK.append({"first": 1, "size": "x", "last": None})
 
 junk = st.sampled_from(JUNK)
@@ -107,7 +113,22 @@ EXTRA_SEEDS = [
     "{% unless a %}{% elsif b %}{% else %}{% endunless %}{% echo x | date: '%Y' | json: 2 %}",
     "{{ n | money }}{{ n | currency: group_separator: false }}{{ x | datetime: format: 'short' }}{{ n | decimal }}{{ n | unit: 'length-meter' }}",
     "{{ s | base64_encode | base64_decode }}{{ s | base64_url_safe_encode | base64_url_safe_decode }}",
+    "{{ x | map: k: i => i.a }}{{ x | where: a=1 => 2 }}{{ x | find: (i) => i }}{{ x | sort: i => i.b, 1 }}",
+    "{{ [a] }}{{ [a].b }}{{ x[[a]] }}{{ x[a[b]] }}{{ ['a']['b'] }}",
+    "{% if h contains l %}{% endif %}{% if l in h %}{% endif %}{% for i in (1..n) limit: 2 %}{% endfor %}",
 ]
+
+
+def decode_junk(v: Any) -> Any:
+    """JSON cannot carry ints beyond the interpreter's int->str digit limit; cases carry a marker."""
+    if isinstance(v, dict):
+        if set(v) == {"__pow10__"}:
+            n = v["__pow10__"]
+            return 10 ** n if n >= 0 else -(10 ** -n)
+        return {k: decode_junk(x) for k, x in v.items()}
+    if isinstance(v, list):
+        return [decode_junk(x) for x in v]
+    return v
 
 
 def _corpus_sources() -> list[dict[str, Any]]:
@@ -185,7 +206,7 @@ def filter_case(draw: Any) -> dict[str, Any]:
                                     "group_separator", "decimal_quantization", "input_format", "denominator_unit"])),
               draw(junk)]
     return {"kind": "filter", "name": name, "left": draw(junk), "args": args, "kw": kw,
-            "site": draw(st.sampled_from(["out", "assign", "for", "if", "tstr"])),
+            "site": draw(st.sampled_from(["out", "assign", "for", "if", "tstr", "contains", "path", "range", "args"])),
             "mode": draw(st.sampled_from(["sync", "async"]))}
 
 
@@ -224,10 +245,12 @@ class C02(Prop):
         return st.one_of(text_case(), text_case(), prog_case(), filter_case())
 
     def enumerate(self, tier: str, disabled: frozenset[str]):
-        tests = corpus()
+        tests = _corpus_sources()
         step = 1 if tier == "thorough" else 7
         for ti, t in enumerate(tests):
             src = t["template"]
+            yield {"kind": "text", "src": src, "data": t.get("data") or {},
+                   "templates": t.get("templates") or {}, "mode": "async" if ti % 2 else "sync"}
             for k in range((ti % step), len(src), step):
                 yield {"kind": "text", "src": src[:k], "data": t.get("data") or {},
                        "templates": t.get("templates") or {}, "mode": "sync"}
@@ -292,12 +315,25 @@ class C02(Prop):
                 "for": "{% assign v = " + call + " %}{% for i in v limit: a0 offset: a1 %}{{ i }}{% endfor %}",
                 "if": "{% assign v = " + call + " %}{% if v == a0 or v < a1 or v contains a2 %}y{% endif %}",
                 "tstr": "{{ \"${" + call + "}\" }}",
+                # membership with hostile operands on both sides
+                "contains": "{% if x contains a0 %}a{% endif %}{% if a0 in x %}b{% endif %}{% if a1 contains x %}c{% endif %}"
+                            "{% case x %}{% when a0, a1 %}d{% endcase %}{{ " + call + " }}",
+                # hostile values as path segments, nested roots and keys
+                "path": "{{ [a0] }}{{ x[a0] }}{{ x[a0][a1] }}{{ [a0].size }}{{ x.first }}{{ x.last }}{{ x.size }}"
+                        "{{ a0[x] }}{{ " + call + " }}",
+                # hostile range bounds (lazily iterated: at most two iterations)
+                "range": "{% for i in (a0..a1) limit: 2 %}{{ i }}{% endfor %}{% for i in (1..x) limit: 1 %}{{ i }}{% endfor %}"
+                         "{{ (x..a0) | first }}{{ " + call + " }}",
+                # hostile values as tag arguments
+                "args": "{% cycle x, a0 %}{% with p: x %}{{ p }}{% endwith %}{% increment c %}{% echo a0 %}"
+                        "{% tablerow i in x cols: a0 limit: a1 %}{{ i }}{% endtablerow %}{{ " + call + " }}",
             }[site]
             templates = {}
             shopify = True
             res.nontrivial = True
             res.labels.append("filter:" + case["name"])
 
+        data = decode_junk(data)
         env = make_env(templates, shopify=shopify)
         try:
             tmpl = env.from_string(src)
